@@ -171,7 +171,7 @@ func runDyn(c dynCase) (string, map[string]interface{}, bool, bool) {
 			if len(children) > 0 && uint64(children[0][0]) < uint64(ptop) {
 				dynStats["draws_inserting_above_top"]++
 				if c.gap > 0 && len(children) > 1 {
-					dynStats["draws_gap_insert_class"]++
+					dynStats["draws_inserting_above_top_with_gap"]++
 				}
 			}
 			if pwants {
